@@ -359,6 +359,12 @@ func (sf *schemafier) schemafy(attr *expr.AttributeExpr, noref ...bool) *openapi
 			s.MaxLength = val.MaxLength
 		}
 	}
+	if attr.Type == expr.Bytes && (s.MinLength != nil || s.MaxLength != nil) {
+		// The length of a Bytes attribute is a number of bytes, minLength
+		// and maxLength would count the characters of the base64 text.
+		s.Pattern = openapi.Base64LengthPattern(s.MinLength, s.MaxLength)
+		s.MinLength, s.MaxLength = nil, nil
+	}
 	for _, v := range val.Required {
 		if a := attr.Find(v); a != nil {
 			if !openapi.MustGenerate(a.Meta) {
